@@ -124,6 +124,12 @@ def record(n, rho, r0, drmin, drmax, nswp=None, cache=False, m=None, none_at=Non
         ret = cb_at is not None and info['nswp'] == cb_at
         # info["e"] must be the distance to the tensor of the previous sweep
         Yold = opts.get('Yold')
+        if Yold is not None and info['nswp'] == 1:
+            # the tensor "of the previous sweep" of the first sweep is the initial tensor itself (the pre-iteration only
+            # re-gauges it)
+            b0, bY0 = dense(Yold), dense(Y0)
+            if not np.abs(b0 - bY0).max() <= 1e-9 * (np.abs(bY0).max() + 1e-300):
+                state['conv_ok'] = False
         if Yold is not None:
             a, b = dense(Y), dense(Yold)
             ref = np.linalg.norm(a - b) / max(np.linalg.norm(b), 1e-300)
@@ -190,6 +196,9 @@ def record(n, rho, r0, drmin, drmax, nswp=None, cache=False, m=None, none_at=Non
             state['evld_ok2'] = False
         if not vld and info['e_vld'] != -1:
             state['evld_ok2'] = False
+        # no sweep at all (nswp = 0, nothing interrupted before the first request was answered): the initial tensor comes back
+        if stop == 'nswp' and info['nswp'] == 0 and not np.abs(Fd - dense(Y0)).max() <= 1e-9 * (np.abs(dense(Y0)).max() + 1e-300):
+            state['conv_ok'] = False
         # early return: distance to the tensor of the last completed sweep
         if stop in ('m', 'func') and state['Ylast'] is not None:
             b_ = dense(state['Ylast'])
